@@ -171,6 +171,18 @@ CHECKS['C19'] = dict(
     note=TB + 'the E2 interpreter and mm.py tables; rank() assumed free of side effects on the needle',
     design_ref='5/C19')
 
+CHECKS['C11'] = dict(
+    category='proof', technique='abstract interpretation of monomorphic MIR (E2) with ghost coverage of REJECTED CANDIDATE POSITIONS (E3 extended to pair masks, scan summaries and byte disequalities): symbolic haystack, arbitrary prefilter value, ghost needle; Houdini loop invariants; entailment obligations at every return; 2 (quick) / 10 (thorough) configurations',
+    text="Decides the property relative to the vector axioms: for every public packed-pair find_prefilter (portable, SSE2, AVX2, "
+         "NEON, simd128) and for the private short-haystack fallback find_simple, None is returned only after every position at "
+         "which the needle still fits was rejected (pair bytes absent), Some(c) only when every position before c was rejected "
+         "(so c <= first occurrence) and -- for the public prefilters -- both pair bytes really are at c+index1, c+index2; the "
+         "constructors store needle[index1]/needle[index2] (rarest_byte = needle[rarest_offset], rarest_offset = index1); the "
+         "meta searcher calls a vector prefilter only when haystack.len() >= min_haystack_len() and find_simple otherwise. "
+         "Holds for all haystack lengths, all pairs (index1 > index2 and offsets up to 255 included) and all contents at once.",
+    note=TB + E3TB + '; the scan summary of memchr/One::find used inside the scalar prefilters is the statement C01 proves',
+    design_ref='5/C11')
+
 NOT_YET = "check not built yet (build in progress, see DESIGN.md section 8 build order)"
 NA = {}
 
